@@ -4,6 +4,7 @@ Analyses every generated variant (see `vcheck -mutgen`) through VERIF_OVERLAY (n
 with all checks in one process, and records per variant: invalid (does not type-check), killed (rules that reported it)
 or survived. Writes <dir>/results.json and prints a per-function summary of survivors."""
 import json, os, subprocess, sys, concurrent.futures as cf, collections, tempfile, shutil
+HERE = os.path.dirname(os.path.dirname(os.path.abspath(__file__)))
 d = sys.argv[1].rstrip('/')
 J = int(sys.argv[sys.argv.index('-j') + 1]) if '-j' in sys.argv else 14
 repo = sys.argv[sys.argv.index('--repo') + 1] if '--repo' in sys.argv else '/repo'
@@ -11,9 +12,9 @@ ENV = dict(os.environ, GOFLAGS='-mod=mod', GOPROXY='off', GOSUMDB='off', GOTOOLC
 idx = json.load(open(d + '/index.json'))
 def run(m):
     vd = tempfile.mkdtemp(prefix='mv-')
-    for f in ('properties.jsonl', 'known_findings.json'): shutil.copy('/verif/' + f, vd + '/' + f)
+    for f in ('properties.jsonl', 'known_findings.json'): shutil.copy(HERE + '/' + f, vd + '/' + f)
     env = dict(ENV, VERIF_OVERLAY=f"{repo}/{m['file']}={m['path']}")
-    p = subprocess.run(['/verif/bin/vcheck', '-verif', vd, '-prop', 'all', '-tier', 'quick'], env=env, capture_output=True, text=True, errors='replace')
+    p = subprocess.run([HERE + '/bin/vcheck', '-verif', vd, '-prop', 'all', '-tier', 'quick'], env=env, capture_output=True, text=True, errors='replace')
     shutil.rmtree(vd, ignore_errors=True)
     out = p.stdout
     if 'LOAD FAILURE' in out: return dict(m, verdict='invalid')
@@ -21,8 +22,10 @@ def run(m):
     return dict(m, verdict='killed' if rules else 'survived', rules=rules)
 res = []
 with cf.ThreadPoolExecutor(J) as ex:
+    stream = open(d + '/results.jsonl', 'w')
     for i, r in enumerate(ex.map(run, idx)):
         res.append(r)
+        stream.write(json.dumps(r) + '\n'); stream.flush()
         if i % 100 == 0: print(i, '/', len(idx), file=sys.stderr, flush=True)
 json.dump(res, open(d + '/results.json', 'w'), indent=1)
 c = collections.Counter(r['verdict'] for r in res)
